@@ -32,6 +32,11 @@ def mkprog(rng, pid, kind, pos, nsh, tail):
         i = g.add(progs.N('map', **{'in': [i]}, f='inc'), k, nsh)
     c = g.add(progs.N(kind, **{'in': [i]}, prefix=prefix), k, nsh)
     i = c
+    if tail in ('prefixed', 'prefixedreduce'):
+        # the cache wrapped by another slice (Prefixed): it must still be found and used as a cache
+        i = g.add(progs.N('prefixed', **{'in': [i]}, n=1), k, nsh)
+        if tail == 'prefixedreduce':
+            i = g.add(progs.N('reduce', **{'in': [i]}, f='sum'), 'bag', nsh)
     if tail == 'map':
         i = g.add(progs.N('map', **{'in': [i]}, f='kmod'), k, nsh)
     elif tail == 'reduce':
@@ -39,13 +44,15 @@ def mkprog(rng, pid, kind, pos, nsh, tail):
     elif tail == 'head':
         i = g.add(progs.N('head', **{'in': [i]}, n=rng.choice([1, 2])), k if k == 'eo' else 'weak', nsh)
     taps = [x for x in (c, i) if x in progs.tappable(g.nodes, i)]
+    if tail in ('prefixed', 'prefixedreduce'):
+        taps = [x for x in taps if x != c]   # a tap would come between the cache and its wrapper
     return {'nodes': g.nodes, 'out': i, 'taps': taps}, prefix
 
 
 def gen(tier):
     rng = random.Random(vlib.seed() * 12007 + 1)
     scs, pid = [], 0
-    combos = [(kind, pos, tail) for kind in ('cache', 'cachepartial') for pos in ('head', 'middle', 'aftershuffle') for tail in ('', 'map', 'reduce', 'head')]
+    combos = [(kind, pos, tail) for kind in ('cache', 'cachepartial') for pos in ('head', 'middle', 'aftershuffle') for tail in ('', 'map', 'reduce', 'head', 'prefixed', 'prefixedreduce')]
     reps = 1 if tier == 'quick' else 5
     for kind, pos, tail in combos:
         for _ in range(reps):
@@ -55,10 +62,12 @@ def gen(tier):
                 prog, prefix = mkprog(rng, pid, kind, pos, nsh, tail)
                 lst = {'do': 'cachefiles', 'as': '', 'res': '', 'args': [], 'prefix': prefix, 'n': nsh}
                 subset = sorted(rng.sample(range(nsh), rng.randrange(0, nsh + 1)))
-                steps = [lst, progs.step_run('a', prog), progs.step_scan('a'), lst,
+                # after a completed run that reads the cached slice to its end (nothing stops early) the files exist
+                lstm = dict(lst, must=tail != 'head')
+                steps = [lst, progs.step_run('a', prog), progs.step_scan('a'), lstm,
                          {'do': 'cachedelete', 'as': '', 'res': '', 'args': [], 'prefix': prefix, 'n': nsh, 'shards': subset}, lst,
-                         progs.step_run('b', prog), progs.step_scan('b'), lst,
-                         progs.step_run('c', prog), progs.step_scan('c'), lst]
+                         progs.step_run('b', prog), progs.step_scan('b'), lstm,
+                         progs.step_run('c', prog), progs.step_scan('c'), lstm]
                 scs.append(progs.scenario(len(scs) + 1, steps, exec_=ex, machprocs=2, isolate=True, timeout_s=40))
     # faults at each file operation of the cache writer (exact-valued positions only)
     kinds = ['create', 'write', 'close']
